@@ -1,44 +1,79 @@
 import P2.Proofs.LangOpt
 import P2.Proofs.LangOptFree
 import P2.Proofs.LangOptSim
+import P2.Proofs.LangFSim
+import P2.Proofs.LangFPres
 import P2.Props.C02
 /-! # C02 on the value language — `P2.Lang.Opt.optimize` against the reference semantics
 
-## Full statement (NOT proved here; kept as the target)
+## The statement (proved below: `optimize_preserves_eval`)
 
 ```
-theorem optimize_preserves_eval (S M T cfg) (hcfg : cfg.intAndOr = false ∧ cfg.regroup = false)
-    (argNames : List String) (a a' : AST) (args : List Val) (n : Nat) (r : R Val) :
-    optimize S M T cfg argNames a = .ok a' →
+theorem optimize_preserves_eval (hcfg : cfg.intAndOr = false ∧ cfg.regroup = false ∧ cfg.closureFieldWins = true)
+    (argNames : List String) (a a' : AST) (args args' : List Val) (n : Nat) (r : R Val) :
+    optimize S M T cfg argNames a = .ok a' → wscoped S argNames a → VsRel args args' →
     eval S M n a (bindParams argNames args).reverse = r → r ≠ .fuel →
-    ∃ n' r', eval S M n' a' (bindParams argNames args).reverse = r' ∧ OptRel r r'
+    ∃ r', RRel VRel r r' ∧ ∃ m0, ∀ m ≥ m0, eval S M m a' (bindParams argNames args').reverse = r'
 ```
-where `OptRel` is equality on first-order results and, on closures, the logical relation "same
+`VRel` (`F.VRel`, `Proofs/LangFRel.lean`) is equality on first-order values and, on closures, "same
 parameters, the body of the right closure is the optimized body of the left one, captured
-environments related up to the inlined constant bindings". Two ingredients are missing:
+environments related up to the inlined constants"; `RRel` relates `.ok v` to `.ok v'` with
+`VRel v v'` and every failure to the same failure (`.err ↔ .err`, `.panic ↔ .panic`,
+`.unmodelled ↔ .unmodelled`). Corollaries: `optimize_preserves_ok`, `optimize_preserves_err`,
+`optimize_reflects_err` (if the optimized program fails with an error and the original program has
+a definite outcome, that outcome is an error), `optimize_preserves_value` (closure-free arguments and
+result: the SAME value), `optimize_preserves_wscoped`, `optimize_preserves_eval_of_generate`.
 
-1. **fuel monotonicity** of `eval` and of the whole library (`binop`, `callStatic`, `methodBody`,
-   `force`, `valEq`, `toStr`, … with their `ap`/`k` parameters): a folded node was evaluated at the
-   fixed fuel `cfg.fuel` in the empty environment, the program evaluates it at whatever fuel is left
-   at that position — to identify the two outcomes one needs
-   `eval n a env = r → r ≠ .fuel → n ≤ m → eval m a env = r`. The framework has lock-step theorems
-   only (C01 runs both semantics at the same fuel), no such lemma exists yet;
-2. **a logical relation between closure values** whose bodies differ by optimization (and whose
-   environments differ by the inlined `let` constants), with the parametricity of the library for
-   it (the analogue of `Proofs/LangLib.lean`, which is specific to reference-vs-compiled closures).
+What happens with the other outcomes: a panic of the original program (in `eval` only an identifier
+without binding panics, e.g. when fewer arguments than names are passed) is a panic of the optimized
+one; `unmodelled` stays `unmodelled`; NOTHING is claimed when the original program runs out of fuel
+at `n`, or when `optimize` answers `Except.error` (a folded value without literal form, a panic /
+`unmodelled` / fuel exhaustion inside a folding step, a run-time binder named like a static function,
+`let` / closure literal inside a `case` constant).
 
-## What is proved (`…_partial`)
+Side conditions, all necessary on the model: `intAndOr = false`, `regroup = false` (the two open
+findings, witnesses below), `closureFieldWins = true` (repair 89b886b, witness below), and
+well-scopedness of the input (`(if true then abs else 0)(3)` evaluates an unbound identifier and
+panics, while the optimized `abs(3)` is a static call; a function whose own name is declared as
+an outer identifier although a constant of that name is in scope reads the constant in the original
+and nothing in the optimized program). `cfg.foldClosures` and `cfg.fuel` are arbitrary.
 
-Every *folding step with a first-order result* is sound locally, in every environment that is
-consistent with the scope the optimizer saw, at the folding fuel: the node evaluates successfully to
-a value `v`, and its replacement evaluates to exactly `v` in every environment at every fuel from
-`need a'` on (`fold_unary_sound_partial`, `fold_binop_sound_partial`, `fold_index_sound_partial`,
-`fold_member_sound_partial`, `fold_static_sound_partial`); the `if` rule is exact with a fuel shift
-of one (`if_rule_sound`); a folding step never replaces the call of an impure static function
-(`rule_keeps_impure_call`). Not covered by a theorem: method folding (`cvals` evaluates every
-argument at the full folding fuel, `evalArgs` at decreasing fuel — again monotonicity), the `&`/`|`
-matrices, calls of constant closures and closure constants (logical relation), regrouping (false
-in general: open finding, witness below), `let` inlining (substitution lemma under binders).
+## How
+
+1. **Fuel monotonicity** (`Proofs/LangMono.lean`): `eval_fuel_mono`, `applyS_fuel_mono`,
+   `evalArgs/evalList/evalKVs/evalCases_fuel_mono`, `runReference_fuel_mono` — an outcome other than
+   `fuel` is the outcome at every larger fuel — for the whole mutual family of `Sem.lean`; the same
+   for every library function given a monotone `Apply` (`uncons_mono` … `binop_mono`,
+   `callStatic_mono`, `methodBody_mono`, `callMethod_mono`), and for the compiled semantics
+   (`exec_fuel_mono`, `applyR_fuel_mono`, `runCompiled_fuel_mono`).
+
+2. **Closure-free programs, exact** (`optimize_preserves_eval_closureFree`,
+   `optimize_preserves_runReference_closureFree`; `Proofs/LangOptFree.lean`): for a program without
+   closure literals whose identifiers are bound (`closureFree`, decidable) the optimized program has
+   EXACTLY the outcome of the original one — same value, or `.err`, `.panic`, `.unmodelled` — in the
+   same environment (ARBITRARY argument values, closures included), at every large enough fuel
+   (`foldClosures = false`: rule (f) has nothing to apply to in such a program). Not a corollary of
+   4: no relation between the arguments is needed.
+
+3. **Everything except rule (f)** (`optimize_preserves_eval_partial`, `…_ok_partial`, `…_err_partial`,
+   `optimize_reflects_err_partial`, `…_value_partial`; `Proofs/LangORel.lean`, `LangOLib.lean`,
+   `LangOptSim.lean`): the statement under `cfg.foldClosures = false`, with the simpler value relation
+   `O.VRel` (first-order constants only, equal values). Superseded by 4 except for the relation.
+
+4. **The whole optimizer** (`optimize_preserves_eval`; `Proofs/LangFRel.lean`, `LangFLib.lean`,
+   `LangFSyn.lean`, `LangFSim.lean`, `LangFPres.lean`): closure literals with optimized bodies and
+   filtered outer identifiers, constants (closure constants too) inlined into closure bodies, calls
+   of constant closures and method calls on constant maps holding them folded, recursive functions,
+   closures passed through every library function (naturality of the library for `VRel`: a
+   namespaced copy of the C01 proof; continuity of the library in `Apply`; the limit `apLim` of
+   `applyS` over the fuel bridges the two runs, which need different amounts of fuel), closures
+   stored in map fields and called as methods, `try`/`catch` with a handler closure. A folding step is
+   proved relationally: the children are simulated against the empty environment in which the
+   optimizer evaluated them, and the folded constant is moved to the environment of its use
+   (`F.VRel.rebase`, which needs that the body of a constant closure is closed: `F.gen_wscoped`).
+   `optimize` preserves well-scopedness (`F.optimize_wscoped`), so only the input is constrained.
+
+The local rule theorems `fold_*_sound_partial` below are kept as they were.
 
 Pinned witnesses: both open findings of C02 and the behaviour before repair 89b886b are
 reproduced as closed facts about variants of `optimize`. -/
@@ -237,13 +272,8 @@ optimized program answers one and the same outcome `r'` at every fuel from some 
 related to `r` (`O.RRel`): a value `.ok v` to `.ok v'` with `O.VRel v v'`; `.err` to `.err`; `.panic`
 to `.panic`; `.unmodelled` to `.unmodelled`.
 
-MISSING for the full statement (`foldClosures = true`, the HEAD default): closure constants — a
-closure literal without outer identifiers is inlined at its uses, calls of constant closures with
-constant arguments and method calls on maps holding them are folded. That needs (1) the value
-relation to treat a closure constant as closed (its body, as compiled by `gen` with no context, does
-not depend on the capturing environment: a lemma `gen … = some _ → wscoped …` and a liveness-restricted
-environment relation), and (2) folding steps whose result is related, not equal, to what the node
-evaluates to. -/
+Rule (f) (`foldClosures = true`, the HEAD default) is covered by `optimize_preserves_eval` below, at
+the price of one more hypothesis (the optimized tree is well-scoped). -/
 theorem optimize_preserves_eval_partial (hcfg : FreeCfg cfg) (argNames : List String) (a a' : AST)
     (args args' : List Val) (n : Nat) (r : R Val)
     (hopt : optimize S M T cfg argNames a = .ok a')
@@ -317,6 +347,150 @@ theorem optimize_preserves_value_partial (hcfg : FreeCfg cfg) (argNames : List S
   obtain ⟨v', hvv, h⟩ := optimize_preserves_ok_partial hcfg argNames a a' args args n v hopt hws
     (O.VsRel.refl_of_closFree hargs) hev
   rw [← O.VRel.eq_of_closFree hv hvv] at h
+  exact h
+
+/-! ## the whole optimizer, rule (f) included -/
+
+abbrev fctx (S : Statics) (M : Methods) (T : Tables) (cfg : Cfg) : F.Ctx := ⟨S, M, T, cfg⟩
+
+/-- the simulation at the top level, from the well-scopedness (`F.wscoped`, the plain predicate:
+identifiers bound, declared outer identifiers in scope, a recursive function has a name) of BOTH
+trees; `optimize_preserves_eval` below derives the second from the first.
+
+Conclusion. Whatever the original program answers at fuel `n`, unless it runs out of fuel, the
+optimized program answers one and the same outcome `r'` at every fuel from some `m0` on, with
+`F.RRel (F.VRel …) r r'`: `.ok v` ↦ `.ok v'` with `F.VRel v v'` (equal up to closures; closures
+correspond when the right body is the optimized left body and the captured environments agree on
+what the optimized body can mention), `.err` ↦ `.err`, `.panic` ↦ `.panic`, `.unmodelled` ↦
+`.unmodelled`. Nothing is claimed when the original program runs out of fuel at `n`. -/
+theorem optimize_preserves_eval_scoped (hcfg : F.FullCfg cfg) (argNames : List String) (a a' : AST)
+    (args args' : List Val) (n : Nat) (r : R Val)
+    (hopt : optimize S M T cfg argNames a = .ok a')
+    (hws : F.wscoped S argNames a = true) (hws' : F.wscoped S argNames a' = true)
+    (hargs : F.VsRel (fctx S M T cfg) args args')
+    (hev : eval S M n a (bindParams argNames args).reverse = r) (hr : r ≠ .fuel) :
+    ∃ r', F.RRel (F.VRel (fctx S M T cfg)) r r' ∧
+      ∃ m0, ∀ m, m0 ≤ m → eval S M m a' (bindParams argNames args').reverse = r' := by
+  unfold optimize at hopt
+  obtain ⟨_, hg, hopt⟩ := ebind_ok hopt
+  exact ((F.simC (S := fctx S M T cfg) hcfg n).expr true _ argNames argNames a a' _ _ hopt hws hws'
+    (F.EnvC.top argNames hargs hg)).out hev hr
+
+/-- a tree the generator accepts is well-scoped -/
+theorem generate_wscoped (a : AST) (argNames : List String) (code : Code)
+    (h : generate S {} a argNames = some code) : F.wscoped S argNames a = true := by
+  unfold generate at h
+  split at h
+  · cases h
+  · refine F.gen_wscoped a _ _ code argNames h (fun x hx => ?_)
+    rcases hx with hx | hx
+    · exact (idx_map_some_ne_none_iff_mem argNames x).mp hx
+    · simp [idxS] at hx
+
+/-- the same with "both trees compile" in place of the two well-scopedness hypotheses -/
+theorem optimize_preserves_eval_of_generate (hcfg : F.FullCfg cfg) (argNames : List String) (a a' : AST)
+    (code code' : Code) (args args' : List Val) (n : Nat) (r : R Val)
+    (hopt : optimize S M T cfg argNames a = .ok a')
+    (hgen : generate S {} a argNames = some code) (hgen' : generate S {} a' argNames = some code')
+    (hargs : F.VsRel (fctx S M T cfg) args args')
+    (hev : eval S M n a (bindParams argNames args).reverse = r) (hr : r ≠ .fuel) :
+    ∃ r', F.RRel (F.VRel (fctx S M T cfg)) r r' ∧
+      ∃ m0, ∀ m, m0 ≤ m → eval S M m a' (bindParams argNames args').reverse = r' :=
+  optimize_preserves_eval_scoped hcfg argNames a a' args args' n r hopt (generate_wscoped a argNames code hgen)
+    (generate_wscoped a' argNames code' hgen') hargs hev hr
+
+/-- **C02 on the value language: `optimize` preserves `eval`** — every rule of the table in
+`Model/Lang/Opt.lean`, rule (f) (closure constants) included; `cfg.foldClosures` and the folding fuel
+are arbitrary.
+
+Hypotheses. `F.FullCfg cfg`: the open findings `intAndOr` and `regroup` off, repair 89b886b on;
+`optimize` succeeds (`Except.ok`: it met nothing it does not model); the ORIGINAL tree is
+well-scoped (`O.wscoped`, decidable, `Proofs/LangORel.lean`: identifiers are bound, the declared
+outer identifiers of closure literals are in scope, a recursive function has a name, the own name of
+a function is not among its outer identifiers — true of every tree the parser produces for a
+program that compiles); related argument lists (`F.VsRel`: equal up to closures).
+
+Conclusion. Whatever the original program answers at fuel `n`, unless it runs out of fuel, the
+optimized program answers one and the same outcome `r'` at every fuel from some `m0` on, with
+`F.RRel (F.VRel …) r r'`: `.ok v` ↦ `.ok v'` with `F.VRel v v'`, `.err` ↦ `.err`, `.panic` ↦ `.panic`,
+`.unmodelled` ↦ `.unmodelled`. -/
+theorem optimize_preserves_eval (hcfg : F.FullCfg cfg) (argNames : List String) (a a' : AST)
+    (args args' : List Val) (n : Nat) (r : R Val)
+    (hopt : optimize S M T cfg argNames a = .ok a')
+    (hws : O.wscoped S argNames a = true)
+    (hargs : F.VsRel (fctx S M T cfg) args args')
+    (hev : eval S M n a (bindParams argNames args).reverse = r) (hr : r ≠ .fuel) :
+    ∃ r', F.RRel (F.VRel (fctx S M T cfg)) r r' ∧
+      ∃ m0, ∀ m, m0 ≤ m → eval S M m a' (bindParams argNames args').reverse = r' :=
+  optimize_preserves_eval_scoped hcfg argNames a a' args args' n r hopt (F.wscoped_of_strict a argNames hws)
+    (F.optimize_wscoped hcfg argNames a a' hopt hws) hargs hev hr
+
+/-- the optimized tree of a well-scoped program is well-scoped -/
+theorem optimize_preserves_wscoped (hcfg : F.FullCfg cfg) (argNames : List String) (a a' : AST)
+    (hopt : optimize S M T cfg argNames a = .ok a') (hws : O.wscoped S argNames a = true) :
+    F.wscoped S argNames a' = true := F.optimize_wscoped hcfg argNames a a' hopt hws
+
+/-- values: the optimized program evaluates to a related value -/
+theorem optimize_preserves_ok (hcfg : F.FullCfg cfg) (argNames : List String) (a a' : AST)
+    (args args' : List Val) (n : Nat) (v : Val)
+    (hopt : optimize S M T cfg argNames a = .ok a')
+    (hws : O.wscoped S argNames a = true)
+    (hargs : F.VsRel (fctx S M T cfg) args args')
+    (hev : eval S M n a (bindParams argNames args).reverse = .ok v) :
+    ∃ v', F.VRel (fctx S M T cfg) v v' ∧
+      ∃ m0, ∀ m, m0 ≤ m → eval S M m a' (bindParams argNames args').reverse = .ok v' := by
+  obtain ⟨r', hr, h⟩ := optimize_preserves_eval hcfg argNames a a' args args' n _ hopt hws hargs hev (by simp)
+  rcases hr.cases (by simp) with ⟨a1, b1, e1, rfl, hab⟩ | ⟨e1, _⟩ | ⟨e1, _⟩ | ⟨e1, _⟩
+  · cases e1; exact ⟨b1, hab, h⟩
+  · cases e1
+  · cases e1
+  · cases e1
+
+/-- errors stay errors -/
+theorem optimize_preserves_err (hcfg : F.FullCfg cfg) (argNames : List String) (a a' : AST)
+    (args args' : List Val) (n : Nat)
+    (hopt : optimize S M T cfg argNames a = .ok a')
+    (hws : O.wscoped S argNames a = true)
+    (hargs : F.VsRel (fctx S M T cfg) args args')
+    (hev : eval S M n a (bindParams argNames args).reverse = .err) :
+    ∃ m0, ∀ m, m0 ≤ m → eval S M m a' (bindParams argNames args').reverse = .err := by
+  obtain ⟨r', hr, h⟩ := optimize_preserves_eval hcfg argNames a a' args args' n _ hopt hws hargs hev (by simp)
+  rcases hr.cases (by simp) with ⟨a1, b1, e1, _, _⟩ | ⟨_, rfl⟩ | ⟨e1, _⟩ | ⟨e1, _⟩
+  · cases e1
+  · exact h
+  · cases e1
+  · cases e1
+
+/-- … and only errors become errors (given that the original program has a definite outcome) -/
+theorem optimize_reflects_err (hcfg : F.FullCfg cfg) (argNames : List String) (a a' : AST)
+    (args args' : List Val) (n m : Nat) (r : R Val)
+    (hopt : optimize S M T cfg argNames a = .ok a')
+    (hws : O.wscoped S argNames a = true)
+    (hargs : F.VsRel (fctx S M T cfg) args args')
+    (hev' : eval S M m a' (bindParams argNames args').reverse = .err)
+    (hev : eval S M n a (bindParams argNames args).reverse = r) (hr : r ≠ .fuel) : r = .err := by
+  obtain ⟨r', hrel, m0, h⟩ := optimize_preserves_eval hcfg argNames a a' args args' n _ hopt hws hargs hev hr
+  have h1 := h (max m0 m) (by omega)
+  have h2 := eval_fuel_mono S M hev' (by simp) (show m ≤ max m0 m by omega)
+  rw [h2] at h1
+  subst h1
+  rcases hrel.cases hr with ⟨a1, b1, _, e1, _⟩ | ⟨e1, _⟩ | ⟨_, e1⟩ | ⟨_, e1⟩
+  · cases e1
+  · exact e1
+  · cases e1
+  · cases e1
+
+/-- closure-free arguments and a closure-free result: the SAME value -/
+theorem optimize_preserves_value (hcfg : F.FullCfg cfg) (argNames : List String) (a a' : AST)
+    (args : List Val) (n : Nat) (v : Val)
+    (hopt : optimize S M T cfg argNames a = .ok a')
+    (hws : O.wscoped S argNames a = true)
+    (hargs : ClosFreeVs args) (hv : ClosFree v)
+    (hev : eval S M n a (bindParams argNames args).reverse = .ok v) :
+    ∃ m0, ∀ m, m0 ≤ m → eval S M m a' (bindParams argNames args).reverse = .ok v := by
+  obtain ⟨v', hvv, h⟩ := optimize_preserves_ok hcfg argNames a a' args args n v hopt hws
+    (F.VsRel.refl_of_closFree hargs) hev
+  rw [← F.VRel.eq_of_closFree hv hvv] at h
   exact h
 
 /-! ## non-vacuity and pinned witnesses -/
@@ -406,6 +580,34 @@ example : ∃ m0, ∀ m, m0 ≤ m →
     | _ => simp [outInt] at h37
   exact optimize_preserves_value_partial free_ok ["a"] prog3 prog3Opt [.int 7] 40 (.int 37) hopt hws
     (.cons (.int 7) .nil) (.int 37) hev
+
+theorem sound_ok : F.FullCfg sound := ⟨rfl, rfl, rfl⟩
+
+/-- `func f(x) x + (1 + 1); f(a) + f(2)`: `f` has no outer identifiers and a pure body -/
+def prog4 : AST :=
+  .letE "f" (.clos ["x"] (.binop "+" (.ident "x") (.binop "+" (.const (.int 1)) (.const (.int 1)))) [] false "f")
+    (.binop "+" (.call (.ident "f") [.ident "a"]) (.call (.ident "f") [.const (.int 2)]))
+/-- rule (f): the closure (with folded body) is a constant, inlined at the first use, and the second
+call — constant closure, constant argument — is folded: `(x -> x + 2)(a) + 4` -/
+def prog4Opt : AST :=
+  .binop "+" (.call (.clos ["x"] (.binop "+" (.ident "x") (.const (.int 2))) [] false "f") [.ident "a"])
+    (.const (.int 4))
+
+/-- non-vacuity of `optimize_preserves_value` (rule (f) fires twice) -/
+example : ∃ m0, ∀ m, m0 ≤ m →
+    eval staticSig M0 m prog4Opt (bindParams ["a"] [.int 7]).reverse = .ok (.int 13) := by
+  have hopt : optimize staticSig M0 T0 sound ["a"] prog4 = .ok prog4Opt := by rfl
+  have hws : O.wscoped staticSig ["a"] prog4 = true := by decide
+  have h13 : outInt (eval staticSig M0 40 prog4 (bindParams ["a"] [.int 7]).reverse) = some 13 := by decide
+  have hev : eval staticSig M0 40 prog4 (bindParams ["a"] [.int 7]).reverse = .ok (.int 13) := by
+    generalize eval staticSig M0 40 prog4 (bindParams ["a"] [.int 7]).reverse = r at h13
+    cases r with
+    | ok v =>
+      cases v <;> simp [outInt] at h13
+      rw [h13]
+    | _ => simp [outInt] at h13
+  exact optimize_preserves_value sound_ok ["a"] prog4 prog4Opt [.int 7] 40 (.int 13) hopt hws
+    (.cons (.int 7) .nil) (.int 13) hev
 
 /-- the hypotheses of `fold_binop_sound_partial` hold on `2 + 3 ↦ 5` -/
 example : rule staticSig M0 T0 sound [("a", none)] (.binop "+" (.const (.int 2)) (.const (.int 3)))
